@@ -63,6 +63,14 @@ Inductive CExpr : expr -> Prop :=
 | CE_pos a : CExpr a -> CExpr (EPos a)
 | CE_paren a : CExpr a -> CExpr (EParen a).
 
+(* a value in the place of a condition: an ordinary value, a call, or an expression with calls *)
+Inductive ValOk : rval -> Prop :=
+| V_plain v : plain_rval mt v = true -> ValOk v
+| V_call f args d : builtin_params f builtin_table = None -> find_rdef rt f = Some d -> plain_args args (rd_params d) = true ->
+    must_return (rd_body d) = true -> ValOk (RCall f args)
+| V_builtin f args ps : builtin_params f builtin_table = Some ps -> plain_args args ps = true -> ValOk (RCall f args)
+| V_expr e : CExpr e -> ValOk (RExpr e).
+
 (* [SimpleB inl inr st]: st is covered; inl = it may contain a break that belongs to an enclosing loop;
    inr = it may contain a return (it lies in the body of a routine).  A call is covered when it names a routine of the table
    and its arguments are ordinary values; [bodies_ok] below says that the body of every routine of the table is covered, so
@@ -86,8 +94,8 @@ Inductive SimpleB : bool -> bool -> stmt -> Prop :=
     plain_args args (rd_params d) = true -> must_return (rd_body d) = true -> SimpleB inl true (SReturn (Some (RCall f args)))
 | B_printf inl inr fmt args names k : printf_names fmt = Some names -> printf_positional fmt = Some k ->
     forallb (plain_rval mt) args = true -> (zlength args <=? k) = true -> names_visible names = true -> SimpleB inl inr (SPrintf fmt args)
-| B_if inl inr c a : plain_rval mt c = true -> SimpleB inl inr a -> SimpleB inl inr (SIf c a None)
-| B_ifelse inl inr c a b : plain_rval mt c = true -> SimpleB inl inr a -> SimpleB inl inr b -> SimpleB inl inr (SIf c a (Some b))
+| B_if inl inr c a : ValOk c -> SimpleB inl inr a -> SimpleB inl inr (SIf c a None)
+| B_ifelse inl inr c a b : ValOk c -> SimpleB inl inr a -> SimpleB inl inr b -> SimpleB inl inr (SIf c a (Some b))
 | B_block inl inr l : SimpleBL inl inr l -> SimpleB inl inr (SBlock l)
 | B_while inl inr c a : plain_rval mt c = true -> SimpleB true inr a -> SimpleB inl inr (SRepeat (LWhile c) a)
 | B_count inl inr n a : plain_rval mt n = true -> SimpleB true inr a -> SimpleB inl inr (SRepeat (LCount n) a)
@@ -338,6 +346,15 @@ Proof.
   unfold pf_args_code in *. cbn [flat_map]. rewrite !forallb_app, (c_rval_no_routine rt mt a (DReg R_RESULT) Ha (plain_ok_result mt a Ha)), (IH Hr). reflexivity.
 Qed.
 
+Lemma valok_no_routine v : ValOk v -> forallb not_routine (c_rval rt mt v (DReg R_RESULT)) = true.
+Proof.
+  intros [v0 Hp|f args d Hb Hf Hp _|f args ps Hb Hp|e He].
+  - exact (c_rval_no_routine rt mt v0 (DReg R_RESULT) Hp (plain_ok_result mt v0 Hp)).
+  - rewrite (c_rcall f args d _ Hb Hf), app_nil_r. exact (call_code_no_routine d f args Hp).
+  - rewrite (c_rcall_builtin f args ps _ Hb), app_nil_r. exact (bcall_code_no_routine ps f args Hp).
+  - rewrite c_rval_expr, forallb_app, (cexpr_no_routine e He). reflexivity.
+Qed.
+
 Lemma simpleB_no_routine :
   (forall inl inr st, SimpleB inl inr st -> forall after, forallb not_routine (c_stmt rt mt false after st) = true) /\
   (forall inl inr l, SimpleBL inl inr l -> forall after, forallb not_routine (c_stmt rt mt false after (SBlock l)) = true).
@@ -355,8 +372,8 @@ Proof.
   - intros inl e He after. rewrite (c_retexpr after e), forallb_app, (cexpr_no_routine e He). reflexivity.
   - intros inl f args d Hb Hf Ha _ after. rewrite (c_retcall after f args d Hb Hf), forallb_app, (call_code_no_routine d f args Ha). reflexivity.
   - intros inl inr fmt args names k _ _ Hpl _ _ after. rewrite c_printf, forallb_app, (pf_args_no_routine args Hpl). reflexivity.
-  - intros inl inr c a Hc _ IHa after. rewrite c_if1_after, !forallb_app, (IHa after), (c_rval_no_routine rt mt c (DReg R_RESULT) Hc (plain_ok_result mt c Hc)). reflexivity.
-  - intros inl inr c a b Hc _ IHa _ IHb after. rewrite c_if2_after, !forallb_app, (IHa _), (IHb after), (c_rval_no_routine rt mt c (DReg R_RESULT) Hc (plain_ok_result mt c Hc)). reflexivity.
+  - intros inl inr c a Hc _ IHa after. rewrite c_if1_after, !forallb_app, (IHa after), (valok_no_routine c Hc). reflexivity.
+  - intros inl inr c a b Hc _ IHa _ IHb after. rewrite c_if2_after, !forallb_app, (IHa _), (IHb after), (valok_no_routine c Hc). reflexivity.
   - intros inl inr l _ IH after. exact (IH after).
   - intros inl inr c a Hc _ IHa after. rewrite c_loop_after, c_whileB, app_nil_r, !forallb_app, (IHa (Some 1)),
       (c_rval_no_routine rt mt c (DReg R_RESULT) Hc (plain_ok_result mt c Hc)). reflexivity.
@@ -1061,6 +1078,36 @@ Proof.
     exact (IHa fuel (fun k Hk => Hbs k ltac:(lia)) im ss s x ss1 Hload Hsim Hc He).
 Qed.
 
+(* a value in the place of a condition arrives in RESULT *)
+Lemma val_runs v : ValOk v -> forall fuel, (forall k, (k < fuel)%nat -> body_sim k) -> forall im ss s x ss1, routines_loaded im -> sim ss s ->
+  code_at im (m_pc s) (c_rval rt mt v (DReg R_RESULT)) -> eval_rval rt mt fuel false ss v = ROk x ss1 ->
+  exists n s' evs, esteps n im s = Some (s', evs) /\ sim ss1 s' /\ m_pc s' = m_pc s + zlength (c_rval rt mt v (DReg R_RESULT)) /\
+                   (m_stack s', fr s') = (m_stack s, fr s) /\ rev (s_trace ss1) = rev (s_trace ss) ++ evs /\ rf_get (m_regs s') R_RESULT = Some x.
+Proof.
+  intros [v0 Hp|f args d Hb Hf Hp Hm|f args ps Hb Hp|e He0] fuel Hbs im ss s x ss1 Hload Hsim Hc He.
+  - destruct (c_rval_runs rt mt v0 (DReg R_RESULT) Hp (plain_ok_result mt v0 Hp) im ss s x ss1 fuel Hsim Hc He) as [Hs1 [n Hn]]. subst ss1.
+    exists n, (put_vm s (DReg R_RESULT) x (zlength (c_rval rt mt v0 (DReg R_RESULT)))), []. split; [exact Hn|].
+    split; [apply sim_put_reg_hidden; [exact Hsim|reflexivity|reflexivity]|]. split; [reflexivity|]. split; [reflexivity|]. split; [rewrite app_nil_r; reflexivity|apply rf_get_set_same].
+  - destruct fuel as [|f1]; [discriminate|]. rewrite eval_rval_S in He. destruct f1 as [|f2]; [discriminate|].
+    rewrite (c_rcall f args d _ Hb Hf), app_nil_r in *.
+    destruct (call_runs f2 (fun k Hk => Hbs k ltac:(lia)) f args d Hb Hf Hp im ss s x ss1 Hload Hsim Hc He) as (n & s' & evs & E & Hs' & Hpc & Hsf & Ht & Hres).
+    exists n, s', evs. split; [exact E|]. split; [exact Hs'|]. split; [exact Hpc|]. split; [exact Hsf|]. split; [exact Ht|exact (Hres Hm)].
+  - destruct fuel as [|f1]; [discriminate|]. rewrite eval_rval_S in He. destruct f1 as [|f2]; [discriminate|].
+    rewrite (c_rcall_builtin f args ps _ Hb), app_nil_r in *.
+    destruct (builtin_runs f2 (fun k Hk => Hbs k ltac:(lia)) f args ps Hb Hp im ss s x ss1 Hload Hsim Hc He) as (n & s' & evs & E & Hs' & Hpc & Hsf & Ht & Hres).
+    exists n, s', evs. split; [exact E|]. split; [exact Hs'|]. split; [exact Hpc|]. split; [exact Hsf|]. split; [exact Ht|exact Hres].
+  - destruct fuel as [|f1]; [discriminate|]. rewrite eval_rval_S in He. rewrite c_rval_expr in *.
+    apply code_at_app in Hc. destruct Hc as [Hce Hpop]. cbn [code_at] in Hpop. destruct Hpop as [Hfpop _].
+    destruct (cexpr_runs e He0 f1 (fun k Hk => Hbs k ltac:(lia)) im ss s x ss1 Hload Hsim Hce He) as (n & s' & evs & E & Hs' & Hpc & Hsk & Hfr & Ht).
+    assert (Hfpop' : fetch im (m_pc s') = Some (I1 OC_POP (dest_param (DReg R_RESULT)))) by (rewrite Hpc; exact Hfpop).
+    set (sp := put_vm (with_stack s' (m_stack s)) (DReg R_RESULT) x 1).
+    assert (Ep : esteps 1 im s' = Some (sp, [])) by exact (pop_step im s' (DReg R_RESULT) x (m_stack s) eq_refl Hsk Hfpop').
+    exists (n + 1)%nat, sp, (evs ++ []). split; [eapply esteps_app; eassumption|].
+    split; [apply sim_put_reg_hidden; [apply sim_with_stack; exact Hs'|reflexivity|reflexivity]|].
+    split; [unfold sp; cbn [put_vm with_stack m_pc]; rewrite Hpc; unfold zlength; rewrite app_length, Nat2Z.inj_add; cbn [length]; lia|].
+    split; [change (m_stack sp, fr sp) with (m_stack s, fr s'); rewrite Hfr; reflexivity|]. split; [rewrite app_nil_r; exact Ht|apply rf_get_set_same].
+Qed.
+
 Theorem simpleB_simulation_upto : bodies_ok -> forall fuel0 : nat,
   (forall inl inr st, SimpleB inl inr st ->
      forall after im ss s sig ss' fuel, (fuel <= fuel0)%nat -> routines_loaded im -> in_loop_ok inl after -> in_ret_ok inr (m_frames s) ->
@@ -1249,27 +1296,28 @@ Proof.
     destruct fuel as [|fuel]; [discriminate|]. rewrite exec_if in He. rewrite c_if1_after in *.
     destruct (eval_rval rt mt fuel false ss c) as [x sa|e sa|sa] eqn:Ev; cbn [sbind] in He; try discriminate.
     apply code_at_app in Hcode. destruct Hcode as [Hcc Hrest]. apply code_at_app in Hrest. destruct Hrest as [Hj Hbody]. cbn [code_at] in Hj. destruct Hj as [Hfj _].
-    destruct (c_rval_runs rt mt c (DReg R_RESULT) Hc (plain_ok_result mt c Hc) im ss s x sa fuel Hsim Hcc Ev) as [Hsa [n Hn]]. subst sa.
+    destruct (val_runs c Hc fuel (fun k Hk => Hbs k ltac:(lia)) im ss s x sa Hload Hsim Hcc Ev) as (n & s1 & e1 & Hn & Hs1 & Hpc1 & Hsf1 & Ht1 & Hr1).
     set (k := zlength (c_rval rt mt c (DReg R_RESULT))) in *.
-    set (s1 := put_vm s (DReg R_RESULT) x k) in *.
-    assert (Hs1 : sim ss s1) by (apply sim_put_reg_hidden; [exact Hsim|reflexivity|reflexivity]).
-    assert (Hr1 : rf_get (m_regs s1) R_RESULT = Some x) by (unfold s1; cbn [put_vm m_regs]; apply rf_get_set_same).
+    destruct (fr_eq_facts s1 s Hsf1) as [Hsk1 [Hct1 [Hdp1 _]]].
+    assert (Hir1 : in_ret_ok inr (m_frames s1)) by (intros Hi; destruct (Hir Hi) as (ret & F & H); exists ret, F; rewrite Hct1; exact H).
+    assert (Hd1 : in_depth_ok inr s1) by (intros Hi; rewrite Hsk1; apply Hdp1; exact (Hd Hi)).
     pose proof (proj1 simpleB_no_routine inl inr a Ha after) as Hnr. rewrite (len_no_routine _ Hnr) in Hfj |- *.
     set (body := c_stmt rt mt false after a) in *.
-    pose proof (jump_if_false im s1 x (zlength body + 1) Hr1 Hfj) as Ej.
+    assert (Hfj' : fetch im (m_pc s1) = Some (jump JC_IF_FALSE (zlength body + 1))) by (rewrite Hpc1; exact Hfj).
+    pose proof (jump_if_false im s1 x (zlength body + 1) Hr1 Hfj') as Ej.
     assert (Hlen : zlength (c_rval rt mt c (DReg R_RESULT) ++ [jump JC_IF_FALSE (zlength body + 1)] ++ body) = k + 1 + zlength body).
     { unfold zlength. rewrite !app_length, !Nat2Z.inj_add. cbn [length]. unfold k, zlength. lia. }
     destruct (truthy x) eqn:Etx.
     + set (s2 := with_pc s1 (m_pc s1 + 1)) in *.
       assert (Hb2 : code_at im (m_pc s2) body).
-      { unfold s2. cbn [with_pc m_pc]. unfold s1. cbn [put_vm m_pc]. rewrite zlength1 in Hbody. exact Hbody. }
-      pose proof (IHa after im ss s2 sig ss' fuel ltac:(lia) Hload Hin Hir Hd (sim_with_pc ss s1 _ Hs1) Hb2 He) as Ho.
-      apply (outcome_after_steps inr after im ss s ss s2 (n + 1)%nat ([] ++ []) sig ss' body); [eapply esteps_app; eassumption|reflexivity|rewrite app_nil_r; reflexivity| |exact Ho].
-      rewrite Hlen. unfold s2, s1. cbn [with_pc put_vm m_pc]. lia.
+      { unfold s2. cbn [with_pc m_pc]. rewrite Hpc1. rewrite zlength1 in Hbody. exact Hbody. }
+      pose proof (IHa after im sa s2 sig ss' fuel ltac:(lia) Hload Hin Hir1 Hd1 (sim_with_pc sa s1 _ Hs1) Hb2 He) as Ho.
+      apply (outcome_after_steps inr after im ss s sa s2 (n + 1)%nat (e1 ++ []) sig ss' body); [eapply esteps_app; eassumption|exact Hsf1|rewrite app_nil_r; exact Ht1| |exact Ho].
+      rewrite Hlen. unfold s2. cbn [with_pc m_pc]. rewrite Hpc1. fold k. lia.
     + injection He as Hsig He. subst ss'. left. split; [auto|].
-      exists (n + 1)%nat, (with_pc s1 (m_pc s1 + (zlength body + 1))), ([] ++ []).
+      exists (n + 1)%nat, (with_pc s1 (m_pc s1 + (zlength body + 1))), (e1 ++ []).
       split; [eapply esteps_app; eassumption|]. split; [apply sim_with_pc; exact Hs1|].
-      split; [rewrite Hlen; unfold s1; cbn [with_pc put_vm m_pc]; lia|]. split; [reflexivity|rewrite app_nil_r; reflexivity].
+      split; [rewrite Hlen; cbn [with_pc m_pc]; rewrite Hpc1; fold k; lia|]. split; [exact Hsf1|rewrite app_nil_r; exact Ht1].
   - (* if with else *)
     intros inl inr c a b Hc Ha IHa Hb IHb after im ss s sig ss' fuel Hle Hload Hin Hir Hd Hsim Hcode He.
     destruct fuel as [|fuel]; [discriminate|]. rewrite exec_if in He. rewrite c_if2_after in *.
@@ -1282,13 +1330,13 @@ Proof.
     apply code_at_app in Hcode. destruct Hcode as [Hcc Hrest]. apply code_at_app in Hrest. destruct Hrest as [Hj Hrest]. cbn [code_at] in Hj. destruct Hj as [Hfj _].
     apply code_at_app in Hrest. destruct Hrest as [Hthen Hrest]. apply code_at_app in Hrest. destruct Hrest as [Hj2 Helse]. cbn [code_at] in Hj2. destruct Hj2 as [Hfj2 _].
     rewrite !zlength1 in Hthen, Hfj2, Helse.
-    destruct (c_rval_runs rt mt c (DReg R_RESULT) Hc (plain_ok_result mt c Hc) im ss s x sa fuel Hsim Hcc Ev) as [Hsa [n Hn]]. subst sa.
+    destruct (val_runs c Hc fuel (fun k Hk => Hbs k ltac:(lia)) im ss s x sa Hload Hsim Hcc Ev) as (n & s1 & e1 & Hn & Hs1 & Hk & Hsf1 & Ht1 & Hr1).
     set (k := zlength (c_rval rt mt c (DReg R_RESULT))) in *.
-    set (s1 := put_vm s (DReg R_RESULT) x k) in *.
-    assert (Hs1 : sim ss s1) by (apply sim_put_reg_hidden; [exact Hsim|reflexivity|reflexivity]).
-    assert (Hr1 : rf_get (m_regs s1) R_RESULT = Some x) by (unfold s1; cbn [put_vm m_regs]; apply rf_get_set_same).
-    pose proof (jump_if_false im s1 x (zlength ta + 2) Hr1 Hfj) as Ej.
-    assert (Hk : m_pc s1 = m_pc s + k) by reflexivity.
+    destruct (fr_eq_facts s1 s Hsf1) as [Hsk1 [Hct1 [Hdp1 Hrs1]]].
+    assert (Hir1 : in_ret_ok inr (m_frames s1)) by (intros Hi; destruct (Hir Hi) as (ret & F & H); exists ret, F; rewrite Hct1; exact H).
+    assert (Hd1 : in_depth_ok inr s1) by (intros Hi; rewrite Hsk1; apply Hdp1; exact (Hd Hi)).
+    assert (Hfj' : fetch im (m_pc s1) = Some (jump JC_IF_FALSE (zlength ta + 2))) by (rewrite Hk; exact Hfj).
+    pose proof (jump_if_false im s1 x (zlength ta + 2) Hr1 Hfj') as Ej.
     assert (Hlen : zlength (c_rval rt mt c (DReg R_RESULT) ++ [jump JC_IF_FALSE (zlength ta + 2)] ++ ta ++ [jump JC_ALWAYS (zlength tb + 1)] ++ tb)
                    = k + 1 + zlength ta + 1 + zlength tb).
     { unfold zlength. rewrite !app_length, !Nat2Z.inj_add. cbn [length]. unfold k, zlength. lia. }
@@ -1296,26 +1344,27 @@ Proof.
     + (* then-branch; when it ends normally, the jump over the else-branch *)
       set (s2 := with_pc s1 (m_pc s1 + 1)) in *.
       assert (Hb2 : code_at im (m_pc s2) ta) by (unfold s2; cbn [with_pc m_pc]; rewrite Hk; exact Hthen).
-      assert (E2 : esteps (n + 1) im s = Some (s2, [] ++ [])) by (eapply esteps_app; eassumption).
-      destruct (IHa after_a im ss s2 sig ss' fuel ltac:(lia) Hload (in_loop_ok_map inl after _ Hin) Hir Hd (sim_with_pc ss s1 _ Hs1) Hb2 He) as [[Hsig Hto]|[[Hsig (a' & Ha' & Hto)]|[Hinr [v [Hsig Hret]]]]].
+      assert (E2 : esteps (n + 1) im s = Some (s2, e1 ++ [])) by (eapply esteps_app; eassumption).
+      assert (Ht1' : rev (s_trace sa) = rev (s_trace ss) ++ (e1 ++ [])) by (rewrite app_nil_r; exact Ht1).
+      destruct (IHa after_a im sa s2 sig ss' fuel ltac:(lia) Hload (in_loop_ok_map inl after _ Hin) Hir1 Hd1 (sim_with_pc sa s1 _ Hs1) Hb2 He) as [[Hsig Hto]|[[Hsig (a' & Ha' & Hto)]|[Hinr [v [Hsig Hret]]]]].
       * left. split; [exact Hsig|]. rewrite Hlen.
-        apply (sim_to_after_steps im ss s ss s2 (n + 1)%nat ([] ++ []) ss'); [exact E2|reflexivity|rewrite app_nil_r; reflexivity|].
-        replace (m_pc s + (k + 1 + zlength ta + 1 + zlength tb)) with (m_pc s2 + zlength ta + (zlength tb + 1)) by (unfold s2; cbn [with_pc m_pc]; rewrite Hk; lia).
+        apply (sim_to_after_steps im ss s sa s2 (n + 1)%nat (e1 ++ []) ss'); [exact E2|exact Hsf1|exact Ht1'|].
+        replace (m_pc s + (k + 1 + zlength ta + 1 + zlength tb)) with (m_pc s2 + zlength ta + (zlength tb + 1)) by (unfold s2; cbn [with_pc m_pc]; rewrite Hk; fold k; lia).
         apply sim_to_jump; [exact Hto|]. unfold s2. cbn [with_pc m_pc]. rewrite Hk. exact Hfj2.
       * right. left. split; [exact Hsig|]. unfold after_a in Ha'. destruct after as [a0|]; cbn [option_map] in Ha'; [|discriminate]. injection Ha' as Ha'. subst a'.
         exists a0. split; [reflexivity|]. rewrite Hlen.
-        apply (sim_to_after_steps im ss s ss s2 (n + 1)%nat ([] ++ []) ss'); [exact E2|reflexivity|rewrite app_nil_r; reflexivity|].
-        replace (m_pc s + (k + 1 + zlength ta + 1 + zlength tb) + a0) with (m_pc s2 + zlength ta + (a0 + 1 + zlength tb)) by (unfold s2; cbn [with_pc m_pc]; rewrite Hk; lia).
+        apply (sim_to_after_steps im ss s sa s2 (n + 1)%nat (e1 ++ []) ss'); [exact E2|exact Hsf1|exact Ht1'|].
+        replace (m_pc s + (k + 1 + zlength ta + 1 + zlength tb) + a0) with (m_pc s2 + zlength ta + (a0 + 1 + zlength tb)) by (unfold s2; cbn [with_pc m_pc]; rewrite Hk; fold k; lia).
         exact Hto.
       * right. right. split; [exact Hinr|]. exists v. split; [exact Hsig|].
-        exact (returned_rebase im ss s ss s2 (n + 1)%nat ([] ++ []) ss' E2 eq_refl eq_refl (eq_sym (app_nil_r _)) Hret).
+        exact (returned_rebase im ss s sa s2 (n + 1)%nat (e1 ++ []) ss' E2 Hct1 Hrs1 Ht1' Hret).
     + (* else-branch *)
       set (s2 := with_pc s1 (m_pc s1 + (zlength ta + 2))) in *.
       assert (Hb2 : code_at im (m_pc s2) tb).
-      { unfold s2. cbn [with_pc m_pc]. rewrite Hk. replace (m_pc s + k + (zlength ta + 2)) with (m_pc s + k + 1 + zlength ta + 1) by lia. exact Helse. }
-      pose proof (IHb after im ss s2 sig ss' fuel ltac:(lia) Hload Hin Hir Hd (sim_with_pc ss s1 _ Hs1) Hb2 He) as Ho.
-      apply (outcome_after_steps inr after im ss s ss s2 (n + 1)%nat ([] ++ []) sig ss' tb); [eapply esteps_app; eassumption|reflexivity|rewrite app_nil_r; reflexivity| |exact Ho].
-      rewrite Hlen. unfold s2. cbn [with_pc m_pc]. rewrite Hk. lia.
+      { unfold s2. cbn [with_pc m_pc]. rewrite Hk. fold k. replace (m_pc s + k + (zlength ta + 2)) with (m_pc s + k + 1 + zlength ta + 1) by lia. exact Helse. }
+      pose proof (IHb after im sa s2 sig ss' fuel ltac:(lia) Hload Hin Hir1 Hd1 (sim_with_pc sa s1 _ Hs1) Hb2 He) as Ho.
+      apply (outcome_after_steps inr after im ss s sa s2 (n + 1)%nat (e1 ++ []) sig ss' tb); [eapply esteps_app; eassumption|exact Hsf1|rewrite app_nil_r; exact Ht1| |exact Ho].
+      rewrite Hlen. unfold s2. cbn [with_pc m_pc]. rewrite Hk. fold k. lia.
   - (* block *)
     intros inl inr l Hl IH after im ss s sig ss' fuel Hle Hload Hin Hir Hd Hsim Hc He. destruct fuel as [|fuel]; [discriminate|].
     rewrite exec_block in He. exact (IH after im ss s sig ss' fuel ltac:(lia) Hload Hin Hir Hd Hsim Hc He).
@@ -2187,8 +2236,8 @@ Fixpoint simpleB_b (fuel : nat) (inl inr : bool) (st : stmt) : bool :=
           | Some names, Some k => forallb (plain_rval mt) args && (zlength args <=? k) && names_visible names
           | _, _ => false
           end
-      | SIf c a None => plain_rval mt c && simpleB_b f inl inr a
-      | SIf c a (Some b) => plain_rval mt c && simpleB_b f inl inr a && simpleB_b f inl inr b
+      | SIf c a None => (plain_rval mt c || callval_b c || valexpr_b c) && simpleB_b f inl inr a
+      | SIf c a (Some b) => (plain_rval mt c || callval_b c || valexpr_b c) && simpleB_b f inl inr a && simpleB_b f inl inr b
       | SBlock l => forallb (simpleB_b f inl inr) l
       | SRepeat (LWhile c) a => plain_rval mt c && simpleB_b f true inr a
       | SRepeat (LCount n) a => plain_rval mt n && simpleB_b f true inr a
@@ -2231,6 +2280,11 @@ Proof.
       + exact (B_builtinuse rt mt inl inr u g args ps Hb Hp Hok).
       + exact (B_calluse rt mt inl inr u g args d Hb Hf Hp Hm Hok).
     - destruct v as [l|l|m|m|y|r|e|g args]; try discriminate. exact (B_useexpr rt mt inl inr u e (Hce e Hv) Hok). }
+  assert (Hval : forall v, plain_rval mt v || callval_b v || valexpr_b v = true -> ValOk rt mt v).
+  { intros v Hv. apply orb_true_iff in Hv. destruct Hv as [Hv|Hv]; [apply orb_true_iff in Hv; destruct Hv as [Hv|Hv]|].
+    - exact (V_plain rt mt v Hv).
+    - destruct (Hcv v Hv) as (g & args & -> & [(ps & Hb & Hp)|(d & Hb & Hf & Hp & Hm)]); [exact (V_builtin rt mt g args ps Hb Hp)|exact (V_call rt mt g args d Hb Hf Hp Hm)].
+    - destruct v as [l|l|m|m|y|r|e|g args]; try discriminate. exact (V_expr rt mt e (Hce e Hv)). }
   destruct st; try discriminate.
   - (* register setting with the value of a call *)
     apply andb_true_iff in H. destruct H as [Hr Hv]. exact (Huse (UReg r) v Hv Hr).
@@ -2250,8 +2304,8 @@ Proof.
     + subst inr. apply B_return0.
   - destruct s2 as [b|].
     + apply andb_true_iff in H. destruct H as [H Hb]. apply andb_true_iff in H. destruct H as [Hc Ha].
-      apply B_ifelse; [exact Hc|apply IH; exact Ha|apply IH; exact Hb].
-    + apply andb_true_iff in H. destruct H as [Hc Ha]. apply B_if; [exact Hc|apply IH; exact Ha].
+      apply B_ifelse; [exact (Hval c Hc)|apply IH; exact Ha|apply IH; exact Hb].
+    + apply andb_true_iff in H. destruct H as [Hc Ha]. apply B_if; [exact (Hval c Hc)|apply IH; exact Ha].
   - destruct l; try discriminate.
     + apply B_infinite. apply IH. exact H.
     + apply andb_true_iff in H. destruct H as [Hc Ha]. apply B_while; [exact Hc|apply IH; exact Ha].
